@@ -140,6 +140,28 @@ def work_history(task):
                          f"the same {T}x{N} array stacked again with window {W} (after other windows): wrong result "
                          f"(shape {getattr(out, 'shape', None)})")
                 break
+    # the SAME array object stacked again with the SAME window after its contents were changed in place
+    # (single and joint path; nothing else stacked in between)
+    for (T, N, W) in ((9, 2, 3), (6, 1, 1), (12, 3, 2)):
+        data = distinct_cells(T, N, salt=7)
+        for step in range(3):
+            if step:
+                data[...] = distinct_cells(T, N, salt=7 + step)
+            db = u64(data)
+            for path in ("single", "joint"):
+                acc.n += 1
+                out = dp.stack_training_data(data, W) if path == "single" else \
+                    dp.stack_training_data_multiple_series([data, data], W)
+                rows = T - W + 1
+                ok = isinstance(out, np.ndarray) and out.shape == ((rows if path == "single" else 2 * rows), N * W) and all(
+                    np.array_equal(u64(out)[:rows, j * N:(j + 1) * N], db[j:j + rows, :]) for j in range(W))
+                if ok and path == "joint":
+                    ok = np.array_equal(u64(out)[rows:], u64(out)[:rows])
+                if not ok:
+                    acc.fail({"kind": "history", "order": order, "same_object": True, "in_place": step, "T": T, "N": N, "W": W},
+                             f"the same {T}x{N} array stacked again ({path}, window {W}) after its contents were changed in "
+                             f"place {step} time(s): the result does not show the current contents")
+                    break
     acc.sample({"kind": "history", "order": order, "calls": len(triples)})
     return acc.result()
 
@@ -264,7 +286,7 @@ def run(ctx):
         "every (T,W,N) with W in 1..12, N in 1..6, T in W..W+40 (2952 triples), cells = pairwise distinct "
         "bit patterns incl. NaN payloads, inf, -0.0, denormals, compared as uint64 (for four T per (W,N) also as a column slice of a wider array, an every-other-row view and a Fortran-ordered array); every tuple of 1..6 series "
         "lengths from {W,W+1,W+3} for W in " + str(list(ws)) + " x N in {1,2}: joint stacking == vstack of "
-        "individual reference stackings (also with rows that are NaN on every sensor and with a series that is all +-0.0), for <= 3 series every assignment of {float64, float32, int64} to the series (by value), call sequences in one process in three orders (output shapes collide across (W,N)), split+pad round trip; int64/float32/int8 inputs by value; "
+        "individual reference stackings (also with rows that are NaN on every sensor and with a series that is all +-0.0), for <= 3 series every assignment of {float64, float32, int64} to the series (by value), the same array object re-stacked with the same window after in-place changes of its contents, call sequences in one process in three orders (output shapes collide across (W,N)), split+pad round trip; int64/float32/int8 inputs by value; "
         "non-trivial = W>1 and T>W (single) or >= 2 series (multi)")
 
 
